@@ -12,7 +12,7 @@ import (
 func vnPosAlphabet(b []byte) {
 	for i := range b {
 		c := b[i]
-		vAssume(c == 'a' || c == '\n' || c == '\r' || c == 0xC3 || c == 0xA9 || c == 0xE2 || c == 0x80 || c == 0xA8 || c == 0x01)
+		vAssume(c == 'a' || c == '\n' || c == '\r' || c == 0xC3 || c == 0xA9 || c == 0xE2 || c == 0x80 || c == 0xA8 || c == 0x01 || c == 0x00)
 	}
 	vAssume(utf8.Valid(b))
 }
@@ -81,6 +81,28 @@ func VerifPosition() {
 	vAssert(len(second) == 6+col+1 && second[len(second)-1] == '^', "caret-line")
 	for i := 0; i+1 < len(second); i++ {
 		vAssert(second[i] == ' ', "caret-line-padding")
+	}
+	// first line: "%5d: " and the text of that line (up to the next line break or the end of the
+	// text), characters that are not graphic shown as a middle dot; lines here are short, so no elision
+	if off >= 0 && off <= n {
+		_, _, ls := refPosition(b, off)
+		var want []byte
+		for i := ls; i < n; {
+			if refBreakLen(b, i) > 0 {
+				break
+			}
+			r, w := utf8.DecodeRune(b[i:])
+			if r < 0x20 || r == 0x7f {
+				want = append(want, 0xC2, 0xB7)
+			} else {
+				want = append(want, b[i:i+w]...)
+			}
+			i += w
+		}
+		first := ctx[7:nl]
+		vAssert(first == string(want), "context-line-text")
+		num := ctx[:7]
+		vAssert(num[5] == ':' && num[6] == ' ' && num[4] == byte('0'+wl%10), "context-line-number")
 	}
 	vReach("position")
 }
